@@ -19,6 +19,7 @@ Proof.
   unfold op_ok. intros G. apply andb_true_iff in G as [G1 G2].
   destruct s as [h b]. destruct o; cbn; try apply extends_refl; try apply deepcopy_heap_extends; try apply extends_app.
   - destruct q; try apply extends_refl. destruct f98; [apply extends_refl|discriminate].
+  - destruct f98; [|discriminate]. match goal with |- context [sub_circ ?a ?b ?c ?e] => destruct (sub_circ a b c e) as [[d' c']|] end; cbn; apply extends_refl.
   - destruct (lookup h r) as [[| |ch es0]|]; cbn; try apply extends_refl. apply extends_app.
   - destruct fe; [|discriminate]. destruct (lookup h r) as [[| |ch es0]|]; cbn; try apply extends_refl.
     destruct (edges_update es0 s t upd); cbn; apply extends_app.
@@ -66,16 +67,38 @@ Proof.
   induction es as [|[[s' t'] a] es IH]; cbn; [reflexivity|]. destruct (String.eqb s s' && String.eqb t t'); [discriminate|].
   destruct (edges_update es s t upd); assumption.
 Qed.
+Lemma sub_circ_equiv : forall p d h r t, abs d h r = Some t ->
+  match sub_circ d h r p with
+  | Some (d', c) => exists s, tsub t p = Some s /\ abs d' h c = Some s
+  | None => tsub t p = None
+  end.
+Proof.
+  induction p as [|k rest IH]; intros d h r t H.
+  - cbn. exists t. split; [reflexivity|assumption].
+  - cbn [sub_circ tsub]. destruct d as [|d].
+    + cbn in H. destruct (lookup h r) as [[| |ch es]|]; try discriminate.
+      destruct (mapM (lift (node_den h)) ch); [|discriminate]. injection H as <-. reflexivity.
+    + cbn in H. destruct (lookup h r) as [[| |ch es]|]; try discriminate.
+      destruct (mapM (lift (abs d h)) ch) as [ss|] eqn:M; [|discriminate]. injection H as <-.
+      destruct (dget k ch) as [cc|] eqn:G.
+      * destruct (lift_dget_Some _ _ _ _ _ M G) as (s & Hs & ->). now apply IH.
+      * now rewrite (lift_dget_None _ _ _ _ M G).
+Qed.
 Lemma outputs_refine_fixed fe f98 d r t : forall ops h, abs d h r = Some t -> ops_ok fe f98 ops = true ->
   snd (mrun_gen true fe f98 d r (h, book0) ops) = map (mstepS d t) ops.
 Proof.
   induction ops as [|o ops IH]; intros h H G; [reflexivity|]. cbn [mrun_gen map].
   cbn in G. apply andb_true_iff in G as [Go Hr]. unfold op_ok in Go. apply andb_true_iff in Go as [Go1 Go2].
   assert (Hd : abs d (deepcopy_heap d r h) r = Some t) by (eapply abs_extends; eauto; apply deepcopy_heap_extends).
-  destruct o as [q| | |es|sv tv upd|o|jac vec|vec|]; cbn [mstep_gen].
+  destruct o as [q|p| | |es|sv tv upd|o|jac vec|vec|]; cbn [mstep_gen].
   - assert (Hq : (match q with QEdges => if f98 then h else collect_mut d h r | _ => h end) = h).
     { destruct q; try reflexivity. destruct f98; [reflexivity|discriminate]. }
     rewrite Hq. specialize (IH h H Hr). destruct (mrun_gen true fe f98 d r (h, book0) ops). cbn in *. rewrite IH. now rewrite (read_equiv d r h t q H).
+  - assert (f98 = true) as -> by (destruct f98; [reflexivity|discriminate]).
+    pose proof (sub_circ_equiv p d h r t H) as SC. destruct (sub_circ d h r p) as [[d' c]|].
+    + destruct SC as (s & Ht & Hs). specialize (IH h H Hr). destruct (mrun_gen true fe true d r (h, book0) ops). cbn in *.
+      rewrite IH, Ht. now rewrite (collect_edges_equiv d' h c s Hs).
+    + specialize (IH h H Hr). destruct (mrun_gen true fe true d r (h, book0) ops). cbn in *. rewrite IH, SC. reflexivity.
   - specialize (IH h H Hr). destruct (mrun_gen true fe f98 d r (h, book0) ops). cbn in *. now rewrite IH.
   - specialize (IH _ Hd Hr). destruct (mrun_gen true fe f98 d r (deepcopy_heap d r h, book0) ops). cbn in *. now rewrite IH.
   - destruct (abs_root_edges _ _ _ _ H) as (ch & E). rewrite E. cbn iota beta.
